@@ -11,7 +11,7 @@ PROP = {
             "character <= longest line+3 goes through LineIndex and LuaDocument; distinct = FNV of the text (held or refuted); "
             "non-trivial = at least 2 lines and at least 4 bytes",
     "min_nontrivial": {"quick": 100000, "thorough": 2500000},
-    "max_secs": {"quick": 60, "thorough": 900},
+    "max_secs": {"quick": 600, "thorough": 1500},
     "require_clauses": ["a:roundtrip", "b:missing-line", "c:clamp"],
     "assumptions": COMMON_ASSUME + [
         "which unit a column counts and which characters end a line is C23's subject: a text is accepted when ONE of six self-consistent conventions "
@@ -21,6 +21,6 @@ PROP = {
         "offsets between the CR and LF of a CRLF are exempt from the round-trip clause under LSP line splitting (no position denotes them)",
     ],
     "level_text": "Every sampled text is checked exhaustively (all offsets, all positions in and 3 beyond range) against a position model written from the LSP "
-                  "specification; 16 x 20 000 texts / ~2.6*10^8 conversions (quick), 16 x 600 000 texts (thorough). Exploration over texts, exhaustive within a text.",
+                  "specification; 16 x 60 000 texts / ~7.7*10^8 conversions (quick), 16 x 600 000 texts (thorough). Exploration over texts, exhaustive within a text.",
     "level_note": "Texts are small (<= 13 lines x <= 10 characters); positions further than 3 beyond the range are not tried.",
 }
